@@ -4,7 +4,7 @@ import json
 from check import Result
 
 PROP = "C05"
-TARGETS = ["NetqasmVerif.Props.C05", "NetqasmVerif.Props.C05Asm"]
+TARGETS = ["NetqasmVerif.Props.C05", "NetqasmVerif.Props.C05Asm", "NetqasmVerif.Props.C05Chain"]
 M = "NetqasmVerif.Props.C05"
 THEOREMS = [(M, "NQ.C05." + n) for n in [
     "emit_correct", "emit_correct_op", "segment_correct", "array_init_correct", "labels_fresh",
@@ -13,7 +13,10 @@ THEOREMS = [(M, "NQ.C05." + n) for n in [
     "break_at_most", "loop_until_skeleton_max", "loop_until_skeleton_exit", "loop_until_skeleton_continue",
     "add_future_correct", "add_regfuture_correct", "addRes_mod_range", "future_indexed_load", "seq_correct",
     "future_value_sound", "flush_returns_all", "emit_correct_partial", "f5_fixed", "f5_witness_old"]] + [
-    ("NetqasmVerif.Props.C05Asm", "NQ.C05.emit_correct_assembled_partial")]
+    ("NetqasmVerif.Props.C05Asm", "NQ.C05.emit_correct_assembled_partial")] + [
+    ("NetqasmVerif.Props.C05Chain", "NQ.C05." + n) for n in [
+        "semBridge_rel", "flush_end_to_end", "emit_correct_end_to_end", "nonvacuous_chain",
+        "nonvacuous_chain_run"]]
 TRANSLATORS = []
 LEVEL_TEXT = (
     "Lean: `emit_correct` — compiler correctness of the SDK builder model: for EVERY host program over the "
